@@ -175,7 +175,8 @@ class ConcurrentExecutorFutureResults(ConcurrentExecutorListResults):
     def _put_result(self, result, idx, success):
         super()._put_result(result, idx, success)
         with self._condition:
-            if self._current == self._exec_count:
+            # nested synchronous completions reach this point more than once: resolve the future only once
+            if self._current == self._exec_count and not self.future.done():
                 if self._exception and self._fail_fast:
                     self.future.set_exception(self._exception)
                 else:
@@ -204,8 +205,12 @@ def execute_concurrent_async(
 
     # Execute concurrently
     try:
-        executor.execute(concurrency=concurrency, fail_fast=raise_on_first_error)
+        results = executor.execute(concurrency=concurrency, fail_fast=raise_on_first_error)
     except Exception as e:
-        future.set_exception(e)
+        if not future.done():
+            future.set_exception(e)
+    else:
+        if not future.done():  # nothing was executed (no statements), so no completion resolved it
+            future.set_result(results)
 
     return future
